@@ -9,7 +9,10 @@ open Monero
   → `<hex of the tree hash>` | `panic` | `err` (not a positive multiple of 32 bytes)
 * `c06_block <block hex> <header hex> <miner tx hash hex> <concatenated tx hashes hex | ->`
   → `ok <tx_root> <hashable blob> <id>` | `panic` | `err`; the first token is used by the implementation only
-* `c06_blob <hdr hex> <root hex> <n>` → blob hex;  `c06_id <hdr hex> <root hex> <n>` → id hex (Lean-only helpers) -/
+* `c06_one <r|b|i> <block hex> <header hex> <miner tx hash hex> <concatenated tx hashes hex | ->`
+  → `ok <hex>`: ONE of tx_root / serialize_hashable / id of the block (same sides as `c06_block`) | `panic` | `err`
+* `c06_blob <hdr hex> <root hex> <n>` → blob hex;  `c06_id <hdr hex> <root hex> <n>` → id hex: the blob / identifier formulas on GIVEN
+  parts (model `blobOf` / `blockIdOf` vs spec `powBlob` / `blockIdSpec`; the harness side is its independent Rust formula, family 18) -/
 namespace Drv
 namespace C06
 
@@ -65,6 +68,27 @@ def stepC06 : Step
       if minerB.length ≠ 32 ∨ hdrB = [] then some (m, "err") else
       let (r, b, i) := Spec.TreeHash.blockSpec K hdrB minerB hs
       some (m, s!"ok {Hex.encode r} {Hex.encode b} {Hex.encode i}")
+    | none => some (m, "err")
+  | ["c06_one", which, blk, hdr, miner, txs] =>
+    if which ≠ "r" ∧ which ≠ "b" ∧ which ≠ "i" then none else
+    let hdrB := Hex.decode hdr
+    let minerB := Hex.decode miner
+    let m := match strict block (Hex.decode blk) with
+      | none => "err"
+      | some b =>
+        let hb := encHeader b.hdr
+        let mh := txHash K b.miner
+        let v := if which = "r" then TreeHash.txRoot K mh b.hashes
+                 else if which = "b" then TreeHash.serializeHashable K hb mh b.hashes
+                 else TreeHash.blockId K correct202612 existing202612 hb mh b.hashes
+        match v with
+        | some x => s!"ok {Hex.encode x}"
+        | none => "panic"
+    match chunks32 (Hex.decode txs) with
+    | some hs =>
+      if minerB.length ≠ 32 ∨ hdrB = [] then some (m, "err") else
+      let (r, b, i) := Spec.TreeHash.blockSpec K hdrB minerB hs
+      some (m, s!"ok {Hex.encode (if which = "r" then r else if which = "b" then b else i)}")
     | none => some (m, "err")
   | ["c06_cnt", n] =>
     match n.toNat? with
